@@ -710,8 +710,8 @@ def parent_walk(ctx: Ctx) -> List[Ob]:
         tree_same = any(pol and norm(e) in (f"self._tree is {o}._tree", f"{o}._tree is self._tree") for e, pol in ret.conds)
         member = any(pol and match("$$p._node_id in $$s", e) is not None for e, pol in ret.conds)
         ok = tree_same and member and has(f"{o}.get_parent_list(add_self=True)", f.node) and has("self.get_parent_list(add_self=True, bottom_up=True)", f.node)
-        if not ok and not any("get_parent_list" in norm(c_.func) for c_ in ctx.env.calls_in[f]) and any(isinstance(n_, ast.While) for n_ in iter_own(f.node)):
-            ok = None  # the two ancestor chains are followed by hand (parent links): not read by this clause
+        if not ok and not any("get_parent_list" in norm(c_.func) for c_ in ctx.env.calls_in[f]):
+            ok = None  # the two ancestor chains are followed by hand (parent links) or by another walker: not read by this clause
     T(["C10"], f, "get_common_ancestor: nearest (bottom-up) own ancestor-or-self whose node_id is among other's", ok, "")
     # a short-cut answer (some parent, without the walk) must not be given for the pair (n, n): its nearest common
     # ancestor-or-self is n itself
@@ -837,8 +837,34 @@ def frame(ctx: Ctx) -> List[Ob]:
     loops = [n for n in ast.walk(f.node) if isinstance(n, ast.For) and any(
         isinstance(x, ast.Assign) and any(isinstance(t, ast.Attribute) and t.attr in ("_data", "_data_id") for t in x.targets)
         for st in n.body for x in ast.walk(st))]
-    ok = len(loops) == 2 and all(any(pol and match("with_clones", e) is not None for e, pol in path_conds(ctx, f, lp)) for lp in loops)
-    obs.append(ctx.ob("FRAME", ["C04", "C02"], f, "set_data touches the other clones only under with_clones", None, ok, "" if ok else "without with_clones exactly this node changes"))
+    def _only_self_or_all(conds) -> bool:
+        """The conditions say: all clones were asked for (with_clones), or there is only this one node."""
+        for e, pol in conds:
+            if pol and match("with_clones", e) is not None:
+                return True
+            if pol and isinstance(e, ast.BoolOp) and isinstance(e.op, ast.Or) and any(norm(v) == "with_clones" for v in e.values) and all(
+                    norm(v) == "with_clones" or norm(v).startswith("not ") or (isinstance(v, ast.Compare) and norm(v.left).startswith("len(") and isinstance(v.ops[0], (ast.LtE, ast.Lt, ast.Eq)))
+                    for v in e.values):
+                return True
+        return False
+
+    ok = True if loops else None
+    for lp in loops:
+        if _only_self_or_all(path_conds(ctx, f, lp)):
+            continue
+        vals = reaching_values(ctx, f, lp, lp.iter) if isinstance(lp.iter, ast.Name) else [lp.iter]
+        for v in vals or [lp.iter]:
+            if isinstance(v, (ast.List, ast.Tuple)) and len(v.elts) == 1 and norm(v.elts[0]) == "self":
+                continue  # the node itself
+            st_ = m.parent_of(v)
+            if isinstance(st_, (ast.Assign, ast.AnnAssign)) and _only_self_or_all(path_conds(ctx, f, st_)):
+                continue  # the clone list, chosen only when all clones were asked for (or there is only one)
+            rv = norm(resolve_expr(ctx, f, lp, v))
+            if "_nodes_by_data_id" in rv or "get_clones" in rv:
+                ok = False  # witness: the whole clone list is rewritten although with_clones was not given
+            elif ok:
+                ok = None
+    obs.append(ctx.tri("FRAME", ["C04", "C02"], f, "set_data touches the other clones only under with_clones", None, ok, "without with_clones exactly this node changes"))
     amb = [c for c in exit_cases(ctx, f, ("raise",)) if raised_class(c.stmt) == "AmbiguousMatchError"]
     ok = any(find_cases([c], "raise", None, [("with_clones is None", True), ("len($$h) > 1", True)]) or find_cases([c], "raise", None, [("with_clones is None", True), ("$h", True)]) for c in amb)
     obs.append(ctx.ob("FRAME", ["C04", "C13"], f, "set_data on a clone requires a with_clones decision", None, ok, ""))
